@@ -436,3 +436,51 @@ func VH_C23_size_beyond_input_struct() {
 	_, err := BC.UnmarshalFromBytes(in, &st)
 	sym.Assert(err != nil, "a struct whose declared size exceeds the input is rejected")
 }
+
+// narrowing: a value written as a 64-bit integer is accepted by a narrower
+// integer kind exactly when it is in that kind's range, and then unchanged
+func VH_C23_narrowing_signed() {
+	v := sym.I64("v")
+	bs, err := BC.MarshalToBytes(v)
+	sym.Assert(err == nil, "int64 encodes")
+	var a int8
+	_, err = BC.UnmarshalFromBytes(bs, &a)
+	sym.Assert((err == nil) == sym.And(v >= -128, v <= 127), "int8 accepts exactly its range")
+	sym.Assert(err != nil || int64(a) == v, "int8 decoding never wraps")
+	var b int16
+	_, err = BC.UnmarshalFromBytes(bs, &b)
+	sym.Assert((err == nil) == sym.And(v >= -32768, v <= 32767), "int16 accepts exactly its range")
+	sym.Assert(err != nil || int64(b) == v, "int16 decoding never wraps")
+	var c int32
+	_, err = BC.UnmarshalFromBytes(bs, &c)
+	sym.Assert((err == nil) == sym.And(v >= -2147483648, v <= 2147483647), "int32 accepts exactly its range")
+	sym.Assert(err != nil || int64(c) == v, "int32 decoding never wraps")
+	var d int
+	_, err = BC.UnmarshalFromBytes(bs, &d)
+	sym.Assert(err == nil && int64(d) == v, "int accepts every int64")
+}
+
+func VH_C23_narrowing_unsigned() {
+	v := sym.U64("v")
+	bs, err := BC.MarshalToBytes(v)
+	sym.Assert(err == nil, "uint64 encodes")
+	var a uint8
+	_, err = BC.UnmarshalFromBytes(bs, &a)
+	sym.Assert((err == nil) == (v <= 255), "uint8 accepts exactly its range")
+	sym.Assert(err != nil || uint64(a) == v, "uint8 decoding never wraps")
+	var b uint16
+	_, err = BC.UnmarshalFromBytes(bs, &b)
+	sym.Assert((err == nil) == (v <= 65535), "uint16 accepts exactly its range")
+	sym.Assert(err != nil || uint64(b) == v, "uint16 decoding never wraps")
+	var c uint32
+	_, err = BC.UnmarshalFromBytes(bs, &c)
+	sym.Assert((err == nil) == (v <= 4294967295), "uint32 accepts exactly its range")
+	sym.Assert(err != nil || uint64(c) == v, "uint32 decoding never wraps")
+	var d uint
+	_, err = BC.UnmarshalFromBytes(bs, &d)
+	sym.Assert(err == nil && uint64(d) == v, "uint accepts every uint64")
+	// a signed kind never accepts an unsigned value above its maximum
+	var e int64
+	_, err = BC.UnmarshalFromBytes(bs, &e)
+	sym.Assert(err != nil || (e >= 0 && uint64(e) == v), "int64 decoding of an unsigned encoding never wraps")
+}
